@@ -1,10 +1,11 @@
 From Plotink Require Import Base.Prelude Base.PyStr Model.Serial3 Corr.S3 Corr.C05.
 Open Scope Z_scope.
-(* read_err: for every call, whether the port handed it a line containing "Err:" (observed by the fake port) *)
+(* read_err: for every call, whether the port handed it a line containing "Err:" or raised an I/O exception at one of its writes / reads
+   (observed by the fake port) *)
 Inductive case04 := K04 (c : cfg) (sc : script) (h : list (call * obs)) (read_err : list bool).
 
-(* "once an object has recorded an error (device error reply, ...)": a request that read a device error line while the object was
-   connected and error-free must leave an error recorded (the latch can only be judged on errors that get recorded at all) *)
+(* "once an object has recorded an error (device error reply, ..., USB exception)": a request that read a device error line or met an
+   I/O exception while the object was connected and error-free must leave an error recorded (the latch can only be judged on errors that get recorded at all) *)
 Fixpoint dev_err_recorded (err_before : option Z) (port_before : bool) (h : list (call * obs)) (re : list bool) : bool :=
   match h, re with
   | (k, ob) :: t, r :: rt =>
